@@ -139,8 +139,7 @@ def structural_problems(objs, check_json=True):
                     continue
                 entry = js[a]
                 if k is not None:
-                    kid = next((kk.id for kk in obj.__dict__[a] if getattr(kk, "name", str(kk)) == k and
-                                hasattr(kk, "id")), k)
+                    kid = next((kk.id for kk in obj.__dict__[a] if hasattr(kk, "id") and S.key_of(kk) == k), k)
                     entry = entry.get(kid) if isinstance(entry, dict) else None
                 if not isinstance(entry, dict) or "direct_ancestors_with_id" not in entry:
                     continue
@@ -250,7 +249,7 @@ def check_completeness(case, ctx):
         ival = getattr(reach[n], a)
         iid = vid(ival)
         chain = ival.attr_updates_chain
-        chain_keys = [(x.modeling_obj_container.name, x.attr_name_in_mod_obj_container) for x in chain]
+        chain_keys = [(S.key_of(x.modeling_obj_container), x.attr_name_in_mod_obj_container) for x in chain]
         if len(set(chain_keys)) != len(chain_keys):
             ctx.violation("chain_duplicates", dict(case, input=list(inp)),
                           "update chain of %s.%s lists an attribute twice" % (n, a),
@@ -283,7 +282,7 @@ def check_completeness(case, ctx):
             xs = list(x.values()) if isinstance(x, dict) else [x]
             for v in xs:
                 for z in v.direct_ancestors_with_id:
-                    zk = (z.modeling_obj_container.name, z.attr_name_in_mod_obj_container) \
+                    zk = (S.key_of(z.modeling_obj_container), z.attr_name_in_mod_obj_container) \
                         if z.modeling_obj_container is not None else None
                     if zk in pos and zk != key and pos[zk] > pos[key]:
                         ctx.violation("update_chain_order", dict(case, input=list(inp)),
